@@ -152,8 +152,8 @@ def compare(case, impl, model):
         s_, pct = got.get(lab, (0.0, None))
         if s_ != want.get(lab, 0):
             disc.append(f"kernel-type table: time[{lab}] impl={s_} model={want.get(lab, 0)} (all: impl={ {k: v[0] for k, v in got.items()} } model={want})")
-        elif pct is not None and total > 0 and abs(pct - 100.0 * want[lab] / total) > 0.05 + 1e-9:
-            disc.append(f"kernel-type table: percentage[{lab}] impl={pct} exact={100.0 * want[lab] / total}")
+        elif pct is not None and total > 0 and abs(pct - 100.0 * want.get(lab, 0) / total) > 0.05 + 1e-9:
+            disc.append(f"kernel-type table: percentage[{lab}] impl={pct} exact={100.0 * want.get(lab, 0) / total}")
     return disc[:8]
 
 
